@@ -59,11 +59,19 @@ def source_of(routine):
 
 
 # --------------------------------------------------------------------------- PSyIR <-> skeleton
+_READ_CACHE = {}
+
+
 def read(routine_skel):
+    """PSyIR Routine of a directive-free skeleton (parsed once per skeleton, then copied)."""
     from psyclone.psyir.frontend.fortran import FortranReader
     from psyclone.psyir.nodes import Routine
-    psyir = FortranReader().psyir_from_source(source_of(routine_skel))
-    return psyir.walk(Routine)[0]
+    key = tuple(routine_skel)
+    if key not in _READ_CACHE:
+        if len(_READ_CACHE) > 4000:
+            _READ_CACHE.clear()
+        _READ_CACHE[key] = FortranReader().psyir_from_source(source_of(routine_skel))
+    return _READ_CACHE[key].copy().walk(Routine)[0]
 
 
 class OutOfModel(Exception):
